@@ -324,7 +324,24 @@ func runC05(w *fw.W) {
 				}
 				return "", "NoPropErr", true
 			}
-			q := rng.Intn(15)
+			if rng.Intn(12) == 0 && len(f.objs) >= 2 {
+				// objects expanded with ** into a call are only read by it
+				run(fmt.Sprintf("{|| \\_.keys.len}(**o%d, **o%d)", rng.Intn(len(f.objs)), rng.Intn(len(f.objs))))
+			}
+			q := rng.Intn(16)
+			if q == 15 {
+				// the same call made through try: the wrapped value resolves the name exactly like the plain call
+				want, werr, ok := resultOn(i, "7")
+				if !ok {
+					return
+				}
+				if werr != "" {
+					expect("try-call", class, fmt.Sprintf("%s.try.%s(7).err.type == %s", on, name, werr), "true", "")
+				} else {
+					expect("try-call", class, fmt.Sprintf("%s.try.%s(7).val", on, name), want, "")
+				}
+				return
+			}
 			if q >= 12 {
 				// the same call spread over several receivers by a list chain, with 0–6 arguments: every element is
 				// resolved on its own and receives the same arguments
